@@ -269,7 +269,8 @@ fn gen_case(rng: &mut Rng) -> Case {
             203 => {
                 // a long run of MCBPC stuffing codes (2^10 .. 2^17 of them) in front of an ordinary picture
                 let fl = if sorenson { Flavour::Sor(rng.below(2) as u8) } else { Flavour::StdPlus };
-                let n = (1usize << (10 + rng.below(8))) + rng.below(9) as usize;
+                let interpreted = crate::util::INTERPRETED.load(std::sync::atomic::Ordering::Relaxed);
+                let n = (1usize << (if interpreted { 6 } else { 10 } + rng.below(if interpreted { 3 } else { 8 }))) + rng.below(9) as usize;
                 let inter = have_ref && rng.chance(1, 2);
                 let p = crate::mon::ladder::stuffed_picture(rng, fl, n * 9 / 8, inter);
                 have_ref = true;
